@@ -92,7 +92,7 @@ def check(ctx):
     # --- Verus: the 13 loops (parametric in the reference automaton)
     ctx.verus_unit(regex_tables.make_unit(infos), finder=None)
 
-    # --- Verus: hand-written validators whose minimal DFA is a DAG plus self-loops (1,4,5,6,7,8,10,11,19,20,23,27):
+    # --- Verus: the 15 hand-written validators (1,4,5,6,7,8,10,11,17,19,20,23,27 via a generated closed form of the DFA run; 24 and 15 piece by piece):
     # the same contract, with a *concrete* reference automaton and a generated, Verus-proved closed form of its run
     def hand_finder(ob):
         import re as _re
@@ -101,12 +101,18 @@ def check(ctx):
             return None
         n = int(m.group(1))
         return dict(module='regex', check='regex_%d' % n, alphabet=infos[n]['dfa'].live_alphabet(), maxlen=5, timeout=120)
-    try:
-        hu = regex_hand.make_unit(infos)
-        ctx.verus_unit(hu, finder=hand_finder)
-        ctx.extra_cov['hand_validators_proved_unbounded'] = {str(n): sh for n, sh in hu.shapes.items()}
-    except Exception as e:   # Lost: DFA shape outside the generated lemma -> undecided, the bounded checks below still run
-        ctx.undecided.append('regex_hand reason=%s' % e)
+    from contracts import regex_split
+    proved = {}
+    for mk in (regex_hand.make_unit, regex_split.make_unit_24, regex_split.make_unit_15):
+        try:
+            hu = mk(infos)
+            if hu is None:
+                continue
+            ctx.verus_unit(hu, finder=hand_finder)
+            proved.update({str(n): sh for n, sh in hu.shapes.items()})
+        except Exception as e:   # Lost: DFA shape outside the generated lemma -> undecided, the bounded checks below still run
+            ctx.undecided.append('%s reason=%s' % (mk.__name__, e))
+    ctx.extra_cov['hand_validators_proved_unbounded'] = proved
 
     # --- Kani: step lemmas (complete) and equality harnesses for hand-written validators (bounded)
     ctx.attach()
@@ -176,7 +182,7 @@ def check(ctx):
             ctx.add(Obligation(ctx.prop, name, 'native-eval', 'bounded', 'discharged', seconds=secs, bound=bound,
                                detail='%d test strings%s' % (summ['tried'], ' (%d failures, all inside the known-bad set of %s)' % (len(fails), known[n]['id']) if fails else '')))
     return ctx.finish(
-        explanation='For the 13 table-driven validators: Verus proves on the real loop that the verdict equals accept(run(s)) of a reference automaton given the step lemma, and the step lemma (every state x every byte of the real static simulates the minimal DFA compiled from the published regex text; accept sets and initial state correspond) is discharged by loop-free full-domain Kani harnesses -- together: language equality for strings of every length. For two tables with a recorded known finding the step lemma is proved against the recorded (defective) language, so any other change is still caught. The 15 hand-written validators are compared with the reference DFA by Kani at fixed lengths and by W-method conformance sets on the real functions (bounded, listed separately).',
+        explanation='For the 13 table-driven validators: Verus proves on the real loop that the verdict equals accept(run(s)) of a reference automaton given the step lemma, and the step lemma (every state x every byte of the real static simulates the minimal DFA compiled from the published regex text; accept sets and initial state correspond) is discharged by loop-free full-domain Kani harnesses -- together: language equality for strings of every length. For two tables with a recorded known finding the step lemma is proved against the recorded (defective) language, so any other change is still caught. The 15 hand-written validators carry the same contract against the concrete minimal DFA: 13 through a generated closed form of the automaton run that Verus proves by induction, validate_regex_24 and validate_regex_15 (built on split) piece by piece with concatenation lemmas. Kani at fixed lengths and W-method conformance sets on the real functions remain as bounded cross-checks (listed separately).',
         checker_cmd='verus generated/regex_tables.rs; cargo kani --harness regex_step_* --harness regex_eq_*; vxnative batch regex regex_n <w-method set>',
         trusted_base=['Verus 0.2026.09.13 + Z3', 'Kani 0.68 + CBMC 6.11', 'regexspec (regex text -> minimal DFA), cross-checked against Python re.fullmatch on every run (%d strings)' % total,
                       'dialect: byte-wise, `.` = any byte but 0x0A, \\d = [0-9] (DESIGN F11)', 'rule R8: table contents enter the Verus unit only through step_ok_n/axiom_ref_n, discharged by Kani on the same static'])
